@@ -156,6 +156,7 @@ int main(void)
 			size_t di = il - s.avail_in, dd = ol - s.avail_out;
 			memcpy(out + op, ob, dd);
 			ip += di; op += dd; calls++;
+			if (getenv("VERIF_TRACE")) fprintf(stderr, "call %u a=%d il=%zu ol=%zu -> r=%d di=%zu dd=%zu\n", calls, (int)a, il, ol, (int)r, di, dd);
 			free(ib); free(ob);
 			if (r == LZMA_BUF_ERROR) {
 				// not fatal: only conclusive once everything was offered
